@@ -744,8 +744,8 @@ def interp_try_ready(prog, body, status, reason):
             raise Stop("terminator " + k)
 
 
-def tryready(ctx, prog):
-    rule = "R-C01-tryready"
+def try_ready_table(prog):
+    """exhaustive decision table of Tracker::try_ready: {(reason, state): 'Ready' | '-' | ...}"""
     body = prog.one(r"^router::scheduler::Tracker::try_ready$")
     reasons = prog.enum_variants("router::scheduler::ScheduleReason")
     pauses = prog.enum_variants("router::scheduler::PauseReason")
@@ -766,6 +766,12 @@ def tryready(ctx, prog):
                 table[key] = "Ready" if new_status[0] == "Ready" else "Some-but-not-ready"
             else:
                 table[key] = "-" if new_status == stt else "changed-without-signal"
+    return body, table
+
+
+def tryready(ctx, prog):
+    rule = "R-C01-tryready"
+    body, table = try_ready_table(prog)
     ctx.stats["try_ready_table"] = {"%s,%s" % k: v for k, v in sorted(table.items())}
     for key in REQUIRED_WAKEUPS:
         got = table.get(key)
